@@ -9,6 +9,10 @@ CLAIMED = {
             'level': 'exhaustive over the enumerated rule instances (T-ORACLE rows/formats for RV32I and MSP430 core, '
                      'T-LEN per CPU, T-CPU rows); narrow: encodings of the two oracle ISAs and length agreement only',
             'note': NOTE},
+    'C02': {'technique': 'CFG must-pass-through between the two passes, store-set comparison (written while assembling vs reset by init())',
+            'level': 'exhaustive over main()\'s paths between the passes, the three add_bin emitters, every field stored while assembling; '
+                     'partial: protocol and state, not per-assembler size decisions',
+            'note': NOTE},
     'C03': {'technique': 'symbolic byte-lane provenance, exhaustive evaluation of extracted checksum expressions, CFG must-pass queries, dispatch tables',
             'level': 'exhaustive over every (de)serialiser site, writer loop, dispatch entry and page test in the current source; '
                      'partial: lanes/lengths/checksums/dispatch/no-drop, not full format conformance',
@@ -17,13 +21,22 @@ CLAIMED = {
             'level': 'exhaustive over the 10 operators, 10 Var methods, 9 digit branches, every division and every re-serialisation site; '
                      'partial: operator table / stack capacities / literal conversion / division guard, not the evaluator algorithm',
             'note': NOTE},
+    'C05': {'technique': 'interval analysis of accepted ranges, byte-lane provenance, directive dispatch table, unit-scaling expression shape',
+            'level': 'exhaustive over the data directive handlers and the unit-conversion sites; partial (no string escapes / binfile / data_fill)',
+            'note': NOTE},
     'C08': {'technique': 'interval analysis (abstract interpretation) of decoder return values and range-loop increments',
             'level': 'exhaustive over every return of the 59 single-instruction decoders and every range loop; lower '
                      'bounds the interval domain cannot establish are listed as observations (not decided)',
             'note': NOTE},
+    'C13': {'technique': 'who-may-call over the call graph, global-store scan, effect (read-only) analysis of formatters, control-dependence of option branches',
+            'level': 'exhaustive over all functions reachable from the assembler entry points, all 59 formatter roots, all option branches',
+            'note': NOTE},
     'C12': {'technique': 'CFG path search after every diagnostic, discarded-result dataflow, abstract interpretation of main()',
             'level': 'exhaustive over every diagnostic call site, every call to an error-returning function and every '
                      'path of main() reachable from naken_asm; path-insensitive to infeasible branches except the modelled idioms',
+            'note': NOTE},
+    'C18': {'technique': 'call-order / argument-identity check of the listing hook, effect analysis of formatters, data-dump selection constant',
+            'level': 'exhaustive over assemble()\'s listing hook, the dump loop and the 59 formatter roots; narrow: not the formatters\' text',
             'note': NOTE},
 }
 
